@@ -126,6 +126,11 @@ def build(scratch, feature_sets=("none",), with_replay=True, harness=True, log=N
                 info["timings"]["replay_" + fs] = run(cmd, hdir, {"CARGO_TARGET_DIR": tdir + "-r", "RUSTFLAGS": "-Awarnings"})
                 ent["replay"] = os.path.join(out, "replay." + fs)
                 shutil.copy(os.path.join(tdir + "-r", "debug", "replay"), ent["replay"])
+                # every corpus grammar must be inside the properties' quantifier ("passes check_invariants")
+                import subprocess
+                p = subprocess.run([ent["replay"], "--check-invariants"], stdout=subprocess.PIPE, stderr=subprocess.PIPE, timeout=120)
+                if b"invariants ok" not in p.stdout:
+                    raise RuntimeError("a corpus grammar fails check_invariants:\n" + p.stderr.decode("utf-8", "replace")[-1500:])
         info["sets"][fs] = ent
     info["timings"]["total"] = time.time() - t0
     with open(os.path.join(out, "build.json"), "w") as f:
